@@ -1,6 +1,7 @@
 """C10 — per-property knobs of ./check (see DESIGN.md §6 C10, notes/C10.md)."""
 import re
-THEOREMS_TIED = ["Rustic.Props.C10.relied_pack_not_deletable", "Rustic.Props.C10.backup_backup_any_interleaving",
+THEOREMS_TIED = ["Rustic.Props.C10.overlap_no_loss", "Rustic.Props.C10.next_prune_recovers", "Rustic.Props.C10.step_preserves_Inv",
+                 "Rustic.Props.C10.relied_pack_not_deletable", "Rustic.Props.C10.backup_backup_any_interleaving",
                  "Rustic.Props.C10.slow_prune_can_lose"]
 
 TRUSTED = [
@@ -10,17 +11,23 @@ TRUSTED = [
     "prune time injection through hook verif::prune::plan_at (the hook repeats PrunePlan::from_prune_options; C02 compares it with the unhooked planner)",
 ]
 ASSUMPTIONS = [
-    "real clock replaced by injected plan times; the observed interleavings are 'A parked at k, B complete' (quick: sampled k, thorough: every k) — B parked at j is not explored",
+    "real clock replaced by injected plan times; the observed interleavings are 'A parked at k, B complete' and 'A parked at k, B parked at j until A has finished' "
+    "(quick: sampled k and 4 sampled (k, j) per kind; thorough: every k for 3 seeds and every (k, j) pair for the first seed of each kind)",
     "keep-delete (23 h) exceeds backup duration PLUS the time a prune needs between planning and writing its index (see known finding)",
     "non-instant prune only",
 ]
-RULE = ("op lines `c10 mon <bp|pb|bb> seed,k`: state = 3 backups of an evolving source, one snapshot forgotten and pruned two keep-delete periods ago (marked packs "
+RULE = ("op lines `c10 mon bfp seed,k,code`: a backup parked after its index load / before its k-th storage operation while the newest or all snapshots are forgotten "
+        "and one or two prunes run (pure-reuse backups that add no blob, prune keeping nothing, plan times beyond keep-delete after pack creation; all 24 combinations "
+        "per round); op lines `c10 mon <bp|pb|bb> seed,k[,j]`: state = 3 backups of an evolving source, one snapshot forgotten and pruned two keep-delete periods ago (marked packs "
         "that the concurrent prune deletes), another forgotten just before; A in {backup of a version sharing content with the forgotten snapshots, prune}, "
-        "parked before its k-th storage operation; B runs fully; then follow-up prune one hour later + check(read_data) + read back of all snapshots. "
+        "parked before its k-th storage operation; B runs fully, or (seed,k,j) on a gated thread up to its j-th operation where it waits for A to finish; then follow-up prune one hour later + check(read_data) + read back of all snapshots. "
         "The interleaved trace (embedded at generation time) is judged by the Lean driver after every prefix. `c10 slowprune` replays theorem slow_prune_can_lose.")
-EXPLANATION = ("Theorems: timing core of two-phase deletion (the only use of the duration hypothesis), removal only by plan (I3), plan discipline, backups rely only on "
-               "visible keys, noLoss preserved by the quiet steps, backup||backup = any interleaving of step-wise safe writes, writes are monotone; negative "
-               "result slow_prune_can_lose. The invariant for the four pack-rewriting step kinds is checked on every gated run (partial). Correspondence: after "
+EXPLANATION = ("Theorems: the invariant Inv (I1 snapshot keys stored+listed and not planned for deletion, I2 relied keys listed since t0-span, I3 plans delete only "
+               "packs marked keep-delete before the plan, I4 own packs) is preserved by all eight step kinds (step_preserves_Inv); hence overlap_no_loss for every "
+               "reachable state of the interleaving model (any number of backups and prunes, induction over step lists) and next_prune_recovers (the follow-up prune "
+               "makes every snapshot readable); hypothesis keep-delete > backup duration + prune span is a guard of the model, span = 0 is the literal hypothesis; "
+               "timing core, removal only by plan, plan discipline, backup||backup = any interleaving of step-wise safe writes; negative result "
+               "slow_prune_can_lose (literal hypothesis insufficient for the real code: marks carry the plan time; open finding). Correspondence: after "
                "every prefix of the real interleaved trace nothing a snapshot needs is lost; after the follow-up prune the repository is consistent; direct "
                "oracles: check(read_data) clean and every snapshot reads back exactly.")
 
